@@ -31,7 +31,7 @@ func init() {
 		id := id
 		register(id, []string{"./..."}, func(p *Prog, r *Report) {
 			t := flowTexts[id]
-			r.Engines = []string{"flow(FLOW-SOME,FLOW-REF,FLOW-PARAM,FLOW-FN,OPT-RELAX,COPY-NOOP,FLOW-MUST)", "hashrules(HASH-KILL)"}
+			r.Engines = []string{"flow(FLOW-SOME,FLOW-REF,FLOW-PARAM,FLOW-FN,OPT-RELAX,COPY-NOOP,FLOW-MUST,LOOP-MUST,MULACC-OWN)", "hashrules(HASH-KILL)"}
 			r.Explanation = "Static value-flow analysis (compositional per-function summaries over SSA, field-based heap for gadget state) of " + t[0] + ". Decided: " + t[1] + ". FLOW-SOME is intrinsic (a free wire must reach some sink, itself or at every same-package call site it is handed to); FLOW-REF / FLOW-PARAM compare with the reviewed table rules/flow.json and demand a superset (sink kind, raw/derived strength, number of call-site-sensitive sink sites). HASH-KILL (typestate): data written to a hasher of these packages reaches a Sum of the same hasher without an intervening Reset. NOT decided: " + t[2] + "."
 			r.RuleText = "one obligation per hint-output / internal-wire source (and per same-package call site receiving an escaping one); nontrivial = at least one sink reached"
 			r.Assumptions = []string{"may-analysis: over-approximated flows can only hide a missing constraint, never raise a false alarm", "call graph: static callees + CHA on gnark-declared interfaces; frontend.API methods are primitives (sinks or arithmetic)", "hint inputs do not flow to hint outputs (outputs are unconstrained until asserted)"}
@@ -45,6 +45,7 @@ func init() {
 			RunFlowMust(p, r, id, pkgScope(flowAreas[id]...))
 			RunFlowLoop(p, r, id, pkgScope(flowAreas[id]...))
 			RunMulAccOwn(p, r, pkgScope(flowAreas[id]...))
+			r.Explanation += " LOOP-MUST (reference): per function, the constraint sites that run in every iteration of their loop (compositional through helpers) do not fall below the reviewed number, so a per-element constraint cannot be skipped for some elements. MULACC-OWN (intrinsic): the accumulator handed to MulAcc, which may be written in place, is never an operand received from the caller."
 			if id == "C05" || id == "C14" {
 				r.Engines = append(r.Engines, "ordguard(ORDER-GUARD)")
 				r.Explanation += " ORDER-GUARD (intrinsic): the guards that compare the requested number of digits with the field size are decided by the order of the two numbers alone; the function is interpreted abstractly (conditional constant propagation over SSA, flow-sensitive store for the local configuration struct) for a representative of every ordering, and on the executable sub-graph of each: bits.toBinary compares the bits with p-1 (MustBeLessOrEqCst is on every path to a return) whenever the requested digits cover the field; bitslice.Partition takes the canonical binary decomposition whenever no bound or a bound of at least the field size is given, and otherwise asserts the recomposition."
